@@ -85,6 +85,7 @@ type c20req struct {
 	mustNotChange  bool
 	class          string
 	haltAcquired   int64 // lock id to release afterwards
+	preHalt        bool  // acquire the halt lock (id 5) before the request, release it afterwards
 	haltDB         string
 }
 
@@ -244,7 +245,23 @@ func runC20(r *Run) {
 					}
 				}
 			}
-			q.class = fmt.Sprintf("tx/%s/body%d/db=%v", q.method, body, dbExists)
+			// half of the forwarded files on the primary come from a node that
+			// really holds the database's halt lock (id 5)
+			if q.method == "POST" && dbExists && target == p && idHdr == foreignID && strings.HasPrefix(nameParam, "name=") && name == dbName && t.Chance(1, 2) {
+				q.preHalt = true
+			}
+			if q.preHalt && t.Chance(1, 4) {
+				// a file that extends the position, verifies, but whose pages do
+				// not produce the post-apply checksum it states
+				if b := validLTX(); b != nil {
+					if f, err := DecodeLTX(bytes.NewReader(b)); err == nil {
+						if wb, err := BuildLTX(f.Header, f.Pages, f.Trailer.PostApplyChecksum^0x10); err == nil {
+							q.body, body = wb, 5
+						}
+					}
+				}
+			}
+			q.class = fmt.Sprintf("tx/%s/body%d/db=%v/halt=%v", q.method, body, dbExists, q.preHalt)
 			if q.method == "POST" && body == 3 && q.body != nil && dbExists && target == p && idHdr != ownID {
 				// well-formed file extending the primary's position: not in the
 				// must-not-change class (whether it should be accepted without a
@@ -320,6 +337,13 @@ func runC20(r *Run) {
 	for i := 0; i < nreq && !r.Failed(); i++ {
 		r.Step()
 		q := gen()
+		if q.preHalt {
+			h.closeConns()
+			hr := target.HTTP(context.Background(), "POST", fmt.Sprintf("/halt?name=%s&id=5", dbName), map[string]string{lhttp.HeaderNodeID: foreignID}, nil, false)
+			if hr.Code != 200 {
+				q.preHalt = false
+			}
+		}
 		before := digestNode(target)
 		dirBefore := map[string]bool{}
 		if ents, err := os.ReadDir(target.Dir); err == nil {
@@ -368,6 +392,15 @@ func runC20(r *Run) {
 			}
 			r.Failf("c20.changed", "%s %s (role %s, node-id header %q, %d body bytes, status %d) is malformed / not allowed for the role / names something that must already exist, yet it changed the node:\n before: %s\n after:  %s", q.method, q.target, role, q.hdr[lhttp.HeaderNodeID], len(q.body), res.Code, before, after)
 			break
+		}
+		if q.preHalt && !target.Exited {
+			target.HTTP(context.Background(), "DELETE", fmt.Sprintf("/halt?name=%s&id=5", dbName), map[string]string{lhttp.HeaderNodeID: foreignID}, nil, false)
+		}
+		if len(h.conns) == 0 && !target.Exited && !r.Failed() {
+			if im, err := ReadDiskImage(p.Store.DBPath(dbName)); err == nil && p.Store.DB(dbName) != nil {
+				h.ref = im
+			}
+			h.openConns(1)
 		}
 		// undo legitimate state changes so that later requests start clean
 		if q.haltAcquired != 0 && res.Code == 200 {
